@@ -20,6 +20,7 @@ import (
 	"io/fs"
 	"os"
 	"runtime/debug"
+	"strings"
 	"sync"
 	"testing"
 	"testing/synctest"
@@ -76,6 +77,8 @@ type world struct {
 	threads  map[int]*thread
 	timers   [][]*thread // per file: started callbacks parked at s.mu, oldest first
 	holds    []hold
+	idleAt   []time.Time // fake time at which refs last dropped to zero
+	grace    time.Duration
 	cur      *thread
 	timerMod bool
 	notes    []string
@@ -267,6 +270,11 @@ func (w *world) snapshot() snap {
 			seen[i] = true
 			order = append(order, lib.Int(int64(i)))
 		}
+		for i, sf := range w.files {
+			if w.pooled[i] && w.pool.VerifRegistered(sf.VerifPoolHandle()) != seen[i] {
+				s.viol = append(s.viol, fmt.Sprintf("lru-wf: member %d: token registered=%v but linked=%v", i, !seen[i], seen[i]))
+			}
+		}
 		if w.capacity > 0 && len(order) > w.capacity {
 			s.viol = append(s.viol, fmt.Sprintf("lru-wf: %d members registered, capacity %d", len(order), w.capacity))
 		}
@@ -343,6 +351,7 @@ func (w *world) finish(t *thread, e event, panics *[]string) lib.Out {
 func (w *world) runCase(c lib.Case) (lib.Out, any, string) {
 	w.capacity = int(c.I("cap"))
 	grace := time.Duration(c.I("grace")) * time.Second
+	w.grace = grace
 	w.pool = fdpool.New(w.capacity)
 	w.muOwner = map[*vsync.Mutex]int{}
 	pm, ok := w.pool.VerifMutex().(*vsync.Mutex)
@@ -367,6 +376,7 @@ func (w *world) runCase(c lib.Case) (lib.Out, any, string) {
 	}
 	nf := len(w.files)
 	w.failNext = make([]bool, nf)
+	w.idleAt = make([]time.Time, nf)
 	w.timers = make([][]*thread, nf)
 	w.threads = map[int]*thread{}
 	var outs []lib.Out
@@ -456,6 +466,20 @@ func (w *world) runCase(c lib.Case) (lib.Out, any, string) {
 			status = lib.Sym("done")
 		}
 		s := w.snapshot()
+		// C24_grace_respected on the implementation: a timer callback closes a descriptor
+		// only after a full grace period without a reader
+		for i, sf := range w.files {
+			st := sf.VerifState()
+			was := lib.Render(prev.files[i])
+			if st.Refs == 0 && !strings.Contains(was, " 0 false ") && !strings.Contains(was, " 0 true ") {
+				w.idleAt[i] = time.Now()
+			}
+			if k.op == "fire" && k.a == i && strings.HasPrefix(was, "( ( some") && !st.Open && !st.Closed {
+				if idle := time.Since(w.idleAt[i]); idle < w.grace {
+					s.viol = append(s.viol, fmt.Sprintf("grace: timer closed file %d after %v idle, grace period %v", i, idle, w.grace))
+				}
+			}
+		}
 		// observation: the status and only what changed (files, then the LRU order)
 		obs := []lib.Out{status}
 		for i := range s.files {
